@@ -187,7 +187,9 @@ def _run(ctx):
                 "fields, pre-existing Via / X-Forwarded-*, User-Agent absent/empty/repeated, framing fields, all RemoteAddr shapes, CONNECT) "
                 "+ end to end: raw client -> real proxy -> scripted origin, directly and through a scripted upstream HTTP proxy, 1-4 requests "
                 "per keep-alive connection (sequential, pipelined, first request split across two writes), origin/absolute form, path and "
-                "query byte classes, bodies none/Content-Length/chunked with sizes 0..70000 around 4 KiB and 32 KiB; non-trivial = cases "
+                "query byte classes, bodies none/Content-Length/chunked with sizes 0..70000 around 4 KiB and 32 KiB plus 1 MiB+4 KiB+1, 2 MiB, 5 MiB+3 "
+                "(first and later request of a connection); inside a MITM tunnel also absolute-form http:// targets and client-supplied "
+                "X-Forwarded-Proto; non-trivial = cases "
                 "that were forwarded",
         "traces_validated_against_impl": evals,
         "model_mismatches": len(model_bad),
@@ -201,7 +203,7 @@ def _run(ctx):
     ctx.finish("proof", coverage, [
         "the theorems are about the Gallina model of the request modifier pipeline (ReqPipeline.v); net/http's reading and writing of the "
         "message are modelled (ReqE2E.v) and tied by the end-to-end differential run only",
-        "MITM configuration is not driven end to end (the same modifier stack and transport are used inside an intercepted tunnel)",
+        "q_tls in the model stands for 'read from an intercepted (MITM) session'; a TLS listener without interception is not driven end to end",
         "header rules are applied by C16's model G16.Model.apply_rules (imported read-only; its meaning is T16_apply_is_spec) and site "
         "credentials by a recorded answer of the real CredentialsMatcher (C06's); cases whose rules act on a documented field "
         "(Via, X-Forwarded-*, User-Agent, Content-Length) are checked for correspondence only",
